@@ -269,11 +269,11 @@ theorem cheb_reuse (s : ChebState K) (A : CRS K) (f g x : Vec K) :
   chebSolve_indep s A g _ _ _ _ _
 
 /-- the constructor keeps an inverted diagonal of the right length when `scale` is set -/
-theorem cheb_setup [LT K] [DecidableLT K] (prm : ChebParams K) (norm : K → K) (A : CRS K)
+theorem cheb_setup [LT K] [DecidableLT K] (prm : ChebParams K) (A : CRS K)
     (hd : prm.scale = true → hasDiagb A = true) :
-    (chebyshev prm norm).setup A = .ok (chebSetup prm norm A)
-    ∧ ((chebSetup prm norm A).scale = true → (chebSetup prm norm A).M.size = A.nrows)
-    ∧ (chebSetup prm norm A).degree = prm.degree := by
+    (chebyshev prm).setup A = .ok (chebSetup prm A)
+    ∧ ((chebSetup prm A).scale = true → (chebSetup prm A).M.size = A.nrows)
+    ∧ (chebSetup prm A).degree = prm.degree := by
   refine ⟨?_, ?_, rfl⟩
   · cases hs : prm.scale
     · simp [chebyshev, hs]
@@ -282,12 +282,22 @@ theorem cheb_setup [LT K] [DecidableLT K] (prm : ChebParams K) (norm : K → K) 
     have : prm.scale = true := h
     simp [chebSetup, this]
 
+/-- the ellipse: centre `d = (hi·higher + hi·lower)/2`, semi-axis `c = (hi·higher − hi·lower)/2`, where `hi` is the
+Gershgorin bound `Amgcl.gershgorin scale A` of C08b (`gershgorin_is_max_rowsum`: the maximal absolute row sum, of
+`D⁻¹A` when `scale`; `gershgorin_bound`: it bounds every eigenvalue) -/
+theorem cheb_ellipse [LT K] [DecidableLT K] (prm : ChebParams K) (A : CRS K) :
+    (chebSetup prm A).d
+        = 1 / (1 + 1) * (Amgcl.gershgorin prm.scale A * prm.higher + Amgcl.gershgorin prm.scale A * prm.lower)
+    ∧ (chebSetup prm A).c
+        = 1 / (1 + 1) * (Amgcl.gershgorin prm.scale A * prm.higher - Amgcl.gershgorin prm.scale A * prm.lower) :=
+  ⟨rfl, rfl⟩
+
 /-- `cheb_affine_fixed`: for every degree, every ellipse `(c, d)` (also degenerate ones), with or without scaling,
 one Chebyshev sweep is a jointly linear map of `(f, x)` that does not depend on `tmp` nor on the members `p, r`,
 keeps the length, and fixes every solution of `A x = f` -/
-theorem cheb_affine_fixed [LT K] [DecidableLT K] (prm : ChebParams K) (norm : K → K) (s : ChebState K)
+theorem cheb_affine_fixed [LT K] [DecidableLT K] (prm : ChebParams K) (s : ChebState K)
     (A : CRS K) (hM : s.scale = true → s.M.size = A.nrows) :
-    Smoother.Good (chebyshev prm norm) s A := by
+    Smoother.Good (chebyshev prm) s A := by
   have hlin : Sweep.JointlyLinear (fun f x (t : Vec K) => ((chebSolve s A f x s.p s.r).1, t)) A.nrows := by
     intro a b f g x y t t₁ t₂ hf hg hx hy
     exact chebSolve_vlin s A hM a b f g x y _ _ _ _ _ _ hf hg hx hy
@@ -299,13 +309,13 @@ theorem cheb_affine_fixed [LT K] [DecidableLT K] (prm : ChebParams K) (norm : K 
     exact chebSolve_size s A hM f x _ _ hx
   exact ⟨fun _ _ _ _ => rfl, fun _ _ _ _ => rfl, hlin, hlin, hsz, hsz, hfix, hfix⟩
 
-theorem cheb_fixed_point [LT K] [DecidableLT K] (prm : ChebParams K) (norm : K → K) (A : CRS K)
+theorem cheb_fixed_point [LT K] [DecidableLT K] (prm : ChebParams K) (A : CRS K)
     (hd : prm.scale = true → hasDiagb A = true) (f x t : Vec K) (hx : x.size = A.nrows) (hf : f.size = A.nrows)
     (h : ∀ i, i < A.nrows → rowDot (A.row i) x = f.getD i 0) :
-    ((chebyshev prm norm).applyPre (chebSetup prm norm A) A f x t).1 = x
-    ∧ ((chebyshev prm norm).applyPost (chebSetup prm norm A) A f x t).1 = x :=
-  ⟨(cheb_affine_fixed prm norm _ A (cheb_setup prm norm A hd).2.1).pre_fixed f x t hx hf h,
-   (cheb_affine_fixed prm norm _ A (cheb_setup prm norm A hd).2.1).post_fixed f x t hx hf h⟩
+    ((chebyshev prm).applyPre (chebSetup prm A) A f x t).1 = x
+    ∧ ((chebyshev prm).applyPost (chebSetup prm A) A f x t).1 = x :=
+  ⟨(cheb_affine_fixed prm _ A (cheb_setup prm A hd).2.1).pre_fixed f x t hx hf h,
+   (cheb_affine_fixed prm _ A (cheb_setup prm A hd).2.1).post_fixed f x t hx hf h⟩
 
 end cheb
 
@@ -478,10 +488,10 @@ theorem exB_diag : ∀ i, i < exB.nrows → exB.get i i ≠ 0 := by decide +kern
 -- Jacobi / SPAI-0 on the unsorted matrix with duplicates
 example := jacobi_sweep (18/25 : ℚ) exB (by decide) (by decide) #[1, 2, 3] #[1/2, 0, -1] #[7, 7, 7] 1 (by decide)
 example := jacobi_affine_scratch_indep (18/25 : ℚ) (diagInv exB) exB (by simp [exB, CRS.nrows])
-example := spai0_sweep (absK : ℚ → ℚ) exB (by decide) #[1, 2, 3] #[1/2, 0, -1] #[] 2 (by decide)
-example : ∀ v : ℚ, absK v * absK v = v * v := by
-  intro v; unfold absK; split <;> ring
-example := spai0_minimises (absK : ℚ → ℚ) (by intro v; unfold absK; split <;> ring) exA (by decide) (by decide) 1
+example := spai0_sweep (Amgcl.absK : ℚ → ℚ) exB (by decide) #[1, 2, 3] #[1/2, 0, -1] #[] 2 (by decide)
+example : ∀ v : ℚ, Amgcl.absK v * Amgcl.absK v = v * v := by
+  intro v; unfold Amgcl.absK; split <;> ring
+example := spai0_minimises (Amgcl.absK : ℚ → ℚ) (by intro v; unfold Amgcl.absK; split <;> ring) exA (by decide) (by decide) 1
   (by decide) (by decide) (7/3)
 -- Gauss–Seidel
 example := gs_forward exB (by decide) (by decide) exB_diag #[1, 2, 3] #[0, 0, 0] #[] rfl 1 (by decide)
@@ -493,9 +503,9 @@ theorem exA_solves : ∀ i, i < exA.nrows → rowDot (exA.row i) #[1, 1, 1] = (#
 example := gs_fixed_point exA (by decide) exA_diag #[3, 2, 2] #[1, 1, 1] #[] rfl rfl exA_solves
 example := jacobi_fixed_point (1/2 : ℚ) exA #[3, 2, 2] #[1, 1, 1] #[] rfl rfl exA_solves
 -- Chebyshev with and without scaling
-example := cheb_fixed_point (K := ℚ) ⟨3, 1, 1/30, true⟩ absK exA (by intro _; decide) #[3, 2, 2] #[1, 1, 1] #[] rfl rfl
+example := cheb_fixed_point (K := ℚ) ⟨3, 1, 1/30, true⟩ exA (by intro _; decide) #[3, 2, 2] #[1, 1, 1] #[] rfl rfl
   exA_solves
-example := cheb_affine_fixed (K := ℚ) ⟨4, 11/10, 1/4, false⟩ absK (chebSetup ⟨4, 11/10, 1/4, false⟩ absK exA) exA
+example := cheb_affine_fixed (K := ℚ) ⟨4, 11/10, 1/4, false⟩ (chebSetup ⟨4, 11/10, 1/4, false⟩ exA) exA
   (by intro h; exact absurd h (by decide))
 -- ILU(0): the constructor succeeds on `exA`, the factors are strictly triangular with non-zero stored pivots
 /-- the factors of `exA` (tridiagonal: ILU(0) is the exact LU factorisation) -/
